@@ -201,6 +201,9 @@ pub fn check_e2e(rec: &J) -> Verdict {
         Ok(Ok(p)) => p,
     };
     let st = rec["st"].as_str().unwrap();
+    if st == "blowup" {
+        return Verdict::skip("executing it needs unbounded time or memory");
+    }
     if st == "fuel" {
         return Verdict::skip("model ran out of fuel");
     }
